@@ -5,6 +5,7 @@ import (
 	"encoding/json"
 	"fmt"
 	"math"
+	"regexp"
 	"sort"
 	"strconv"
 	"strings"
@@ -186,23 +187,23 @@ func (c cursor) concrete() (cursor, string) {
 // pctx: facts about the selection path down to the current position; they end up in the match
 // facts of a violation so that one specific defect can be told from another.
 type pctx struct {
-	belowResolver bool // an ancestor field is a @connect__fieldResolver field
-	belowRequires bool // an ancestor field is a @requires field
-	inEntity      bool // below _entities
-	listDepth     int  // list nesting of the field whose value is being looked at
-	belowAbstract bool // an ancestor position has an interface/union type
-	resolverDepth int  // number of field-resolver ancestors
+	belowResolver bool   // an ancestor field is a @connect__fieldResolver field
+	belowRequires bool   // an ancestor field is a @requires field
+	inEntity      bool   // below _entities
+	listDepth     int    // list nesting of the field whose value is being looked at
+	belowAbstract bool   // an ancestor position has an interface/union type
+	resolverDepth int    // number of field-resolver ancestors
 	parentKind    string // kind (plain|resolver|requires|root) of the field whose value holds the current object
 	entityIdx     int    // 1+index of the current element of _entities (0 = not an entity element)
 }
 
 func (pc pctx) facts(extra map[string]string) map[string]string {
 	m := map[string]string{
-		"below_resolver": strconv.FormatBool(pc.belowResolver),
-		"below_requires": strconv.FormatBool(pc.belowRequires),
-		"in_entity":      strconv.FormatBool(pc.inEntity),
-		"list_depth":     strconv.Itoa(pc.listDepth),
-		"below_abstract": strconv.FormatBool(pc.belowAbstract),
+		"below_resolver":    strconv.FormatBool(pc.belowResolver),
+		"below_requires":    strconv.FormatBool(pc.belowRequires),
+		"in_entity":         strconv.FormatBool(pc.inEntity),
+		"list_depth":        strconv.Itoa(pc.listDepth),
+		"below_abstract":    strconv.FormatBool(pc.belowAbstract),
 		"parent_field_kind": pc.parentKind,
 	}
 	for k, v := range extra {
@@ -239,9 +240,23 @@ type acc struct {
 	pos      []posRec
 	counters map[string]int64
 	sets     map[string]map[string]bool
+	// seq counts, per (RPC method, response path without indices), how many parent objects the
+	// walk has met so far: the n-th one is answered by result[n] of a resolve / require RPC
+	seq map[string]int
 }
 
-func newAcc() *acc { return &acc{counters: map[string]int64{}, sets: map[string]map[string]bool{}} }
+func newAcc() *acc {
+	return &acc{counters: map[string]int64{}, sets: map[string]map[string]bool{}, seq: map[string]int{}}
+}
+
+// trial: a scratch accumulator that continues the sequence counters of a
+func (a *acc) trial() *acc {
+	t := newAcc()
+	for k, v := range a.seq {
+		t.seq[k] = v
+	}
+	return t
+}
 
 func (a *acc) count(n string, k int64) { a.counters[n] += k }
 func (a *acc) observe(set, item string) {
@@ -251,6 +266,7 @@ func (a *acc) observe(set, item string) {
 	a.sets[set][item] = true
 }
 func (a *acc) merge(b *acc) {
+	a.seq = b.seq
 	a.viol = append(a.viol, b.viol...)
 	a.pos = append(a.pos, b.pos...)
 	for k, v := range b.counters {
@@ -266,6 +282,7 @@ func (a *acc) merge(b *acc) {
 type entityRep struct{ typ, id string }
 
 type oracle struct {
+	calls   []rpcCall   // the RPCs of this Load (recorded by the memoising transport)
 	reps    []entityRep // entity operations: __typename and id of each representation, in order
 	m       *schemaModel
 	mp      *grpcdatasource.GRPCMapping
@@ -557,7 +574,7 @@ func (o *oracle) object(a *acc, pc pctx, typeName string, sels []*node, where st
 	}
 	var clean, all []trialT
 	for _, cand := range candidates {
-		t := trialT{cand, newAcc()}
+		t := trialT{cand, a.trial()}
 		o.objectAs(t.a, pc, cand, abstract, sels, where, obj, jpath, opath, cur)
 		all = append(all, t)
 		if len(t.a.viol) == 0 {
@@ -589,6 +606,62 @@ func (o *oracle) object(a *acc, pc pctx, typeName string, sels []*node, where st
 		}
 	}
 	a.merge(pick.a)
+}
+
+var reIndex = regexp.MustCompile(`\[\d+\]`)
+
+// singleEntityType: all representations are of one type (then the n-th entity that carries a
+// @requires field is the n-th context element of the require RPC).
+func (o *oracle) singleEntityType() bool {
+	for _, r := range o.reps {
+		if r.typ != o.reps[0].typ {
+			return false
+		}
+	}
+	return len(o.reps) > 0
+}
+
+// batchResult: resolve / require RPCs answer a batch: result[n] belongs to the n-th parent object
+// in document order. The cursor is attributed only when this Load made exactly one distinct
+// request to that method.
+func (o *oracle) batchResult(a *acc, rpc, target, jpath string) cursor {
+	if o.lenient || target == "" {
+		return unknownCursor
+	}
+	method := "/productv1.ProductService/" + rpc
+	keys := map[string]bool{}
+	var reply protoreflect.Message
+	for i := range o.calls {
+		c := &o.calls[i]
+		if c.method == method {
+			if c.err != nil {
+				return unknownCursor
+			}
+			keys[c.key] = true
+			reply = c.reply
+		}
+	}
+	seqKey := method + "|" + reIndex.ReplaceAllString(jpath, "")
+	n := a.seq[seqKey]
+	a.seq[seqKey] = n + 1
+	if len(keys) != 1 || reply == nil {
+		return unknownCursor
+	}
+	rfd := reply.Descriptor().Fields().ByName("result")
+	if rfd == nil || !rfd.IsList() || rfd.Kind() != protoreflect.MessageKind {
+		return unknownCursor
+	}
+	list := reply.Get(rfd).List()
+	if n >= list.Len() {
+		return unknownCursor
+	}
+	item := list.Get(n).Message()
+	fd := item.Descriptor().Fields().ByName(protoreflect.Name(target))
+	if fd == nil {
+		return unknownCursor
+	}
+	a.count("batch_results_followed_in_service_data", 1)
+	return cursorFromField(item, fd)
 }
 
 func (o *oracle) fieldKind(runtime, name string) string {
@@ -687,9 +760,17 @@ func (o *oracle) objectAs(a *acc, pc pctx, runtime string, abstract bool, sels [
 			cpc.belowResolver = true
 			cpc.resolverDepth++
 			a.observe("field_resolvers_answered", fwhere)
+			if rm, ok := o.mp.ResolveRPCs[runtime][g.name]; ok {
+				ccur = o.batchResult(a, rm.RPC, rm.FieldMappingData.TargetName, jpath+"."+g.key)
+			}
 		case "requires":
 			cpc.belowRequires = true
 			a.observe("requires_fields_answered", fwhere)
+			for _, ec := range o.mp.EntityRPCs[runtime] {
+				if rq, ok := ec.RequiredFields[g.name]; ok && o.singleEntityType() {
+					ccur = o.batchResult(a, rq.RPC, rq.TargetName, jpath+"."+g.key)
+				}
+			}
 		default:
 			if g.name != "_entities" {
 				ccur = cur.field(o.mp, runtime, g.name)
